@@ -86,6 +86,17 @@ BOUNDARY = [
     (['|a||c|', '|-|-|-|', '|1||3|', '|x|'],
      '<table>\n<thead>\n<tr>\n<th align="left">a</th>\n<th align="left"></th>\n<th align="left">c</th>\n</tr>\n</thead>\n<tbody>\n<tr>\n<td align="left">1</td>\n'
      '<td align="left"></td>\n<td align="left">3</td>\n</tr>\n<tr>\n<td align="left">x</td>\n<td align="left"></td>\n<td align="left"></td>\n</tr>\n</tbody>\n</table>'),
+    # 5.1 / 5.2 laziness: only a line that continues an open paragraph is a lazy continuation line - after a heading, a thematic
+    # break, a code block or an HTML block the container ends; paragraph text of a nested item indented four columns is still a paragraph
+    (['> # h', 'text'], '<blockquote>\n<h1>h</h1>\n</blockquote>\n<p>text</p>'),
+    (['- # h', 'text'], '<ul>\n<li>\n<h1>h</h1>\n</li>\n</ul>\n<p>text</p>'),
+    (['> > ---', 'text', '', '> - ***', 'text'], '<blockquote>\n<blockquote>\n<hr />\n</blockquote>\n</blockquote>\n<p>text</p>\n<blockquote>\n<ul>\n<li>\n<hr />\n</li>\n</ul>\n</blockquote>\n<p>text</p>'),
+    (['> ```', '> a', 'text', '', '> <div>', 'text'], '<blockquote>\n<pre><code>a\n</code></pre>\n</blockquote>\n<p>text</p>\n<blockquote>\n<div>\n</blockquote>\n<p>text</p>'),
+    (['> 10. a', '>', '>     para', 'lazy'], '<blockquote>\n<ol start="10">\n<li>\n<p>a</p>\n<p>para\nlazy</p>\n</li>\n</ol>\n</blockquote>'),
+    (['> [foo]: /url', 'lazy [foo]'], '<blockquote>\n<p>lazy <a href="/url">foo</a></p>\n</blockquote>'),
+    (['1000.     code', '    more'], '<ol start="1000">\n<li>\n<pre><code>code\n</code></pre>\n</li>\n</ol>\n<pre><code>more\n</code></pre>'),
+    (['- > # h', 'text', '', '> - a', '>', '>   # h', '  2. x'],
+     '<ul>\n<li>\n<blockquote>\n<h1>h</h1>\n</blockquote>\n</li>\n</ul>\n<p>text</p>\n<blockquote>\n<ul>\n<li>\n<p>a</p>\n<h1>h</h1>\n</li>\n</ul>\n</blockquote>\n<ol start="2">\n<li>x</li>\n</ol>'),
 ]
 LEAVES = LEAVES + ['boundary:%d' % i for i in range(len(BOUNDARY))]
 
